@@ -300,18 +300,20 @@ Proof.
 Qed.
 
 Lemma join_ok_rel e1 e2 k ms : env_rel e1 e2 -> join_ok e1 k ms = join_ok e2 k ms.
+Proof. intros H. unfold join_ok. rewrite (first_cands_rel e1 e2 NS.empty ms H). reflexivity. Qed.
+
+Lemma all_registered_rel e1 e2 ms : env_rel e1 e2 -> forallb (m_registered e1) ms = forallb (m_registered e2) ms.
 Proof.
-  intros H. unfold join_ok. rewrite (first_cands_rel e1 e2 NS.empty ms H).
-  assert (forallb (m_registered e1) ms = forallb (m_registered e2) ms) as ->; [|reflexivity].
-  induction ms as [|m r IH]; cbn [forallb]; [reflexivity|]. rewrite (m_registered_rel e1 e2 m H), IH. reflexivity.
+  intros H. induction ms as [|m r IH]; cbn [forallb]; [reflexivity|]. rewrite (m_registered_rel e1 e2 m H), IH. reflexivity.
 Qed.
 
 Lemma env_join_rel e1 e2 av eids hs k ms : env_rel e1 e2 ->
   snd (env_join e1 av eids hs k ms) = snd (env_join e2 av eids hs k ms) /\
   env_rel (fst (env_join e1 av eids hs k ms)) (fst (env_join e2 av eids hs k ms)).
 Proof.
-  intros H. unfold env_join. rewrite (join_ok_rel e1 e2 k ms H).
+  intros H. unfold env_join. rewrite (join_ok_rel e1 e2 k ms H), (all_registered_rel e1 e2 ms H).
   destruct (join_ok e2 k ms); cbn [negb]; [|cbn [fst snd]; auto].
+  destruct (forallb (m_registered e2) ms); cbn [negb]; [|cbn [fst snd]; split; [reflexivity | apply env_rel_fail; assumption]].
   assert (forall keys,
     snd (let '(e1', r) := visit_keys av hs (is_lending k) eids ms keys e1 in (consume_cs ms e1', JItems r)) =
     snd (let '(e1', r) := visit_keys av hs (is_lending k) eids ms keys e2 in (consume_cs ms e1', JItems r)) /\
